@@ -1,27 +1,33 @@
-(* proofs/C12_nan.v -- NaN behaviour of the FIRM kernel, per output component. *)
-From V Require Import lib.Tree lib.C12_aux gen.Gen_C12_kern model.C12.
+(* proofs/C12_nan.v -- NaN behaviour of the FIRM kernel, per output component, infinite values included. *)
+From V Require Import lib.Tree lib.C12_aux gen.Gen_C12_kern model.C12 proofs.C12.
 
-(* case-split every comparison without recording facts (enough when only the NaN-ness of the result matters) *)
-Ltac qsplit := repeat match goal with
-  | |- context [Qle_bool ?u ?v] => destruct (Qle_bool u v)
-  | |- context [Qeq_bool ?u ?v] => destruct (Qeq_bool u v)
-  | |- context [Qcompare ?u ?v] => destruct (Qcompare u v) end.
-
-(* NaN-iff for EVERY output component: NaN inputs give NaN penalties, never a zero penalty, and nothing else does *)
+(* NaN-iff for EVERY output component: NaN inputs give NaN penalties, never a zero penalty, and nothing else does --
+   in particular not an infinite forecast, observation or threshold (round 4: infinite values are inside the statement) *)
 Lemma firm_nan_iff (s : string) (a : Q) (f o t d : xv) :
-  xisinf f = false -> xisinf o = false -> xisinf t = false -> disc_ok d ->
+  0 < a < 1 -> disc_ok d ->
   let '(tot, over, under) := gen_firm_single f o (XFin a) t d s in
   (tot = XNaN <-> f = XNaN \/ o = XNaN \/ t = XNaN) /\
   (over = XNaN <-> f = XNaN \/ o = XNaN \/ t = XNaN) /\
   (under = XNaN <-> f = XNaN \/ o = XNaN \/ t = XNaN).
 Proof.
-  intros Hf Ho Ht Hd. unfold gen_firm_single.
-  destruct f as [|f|]; destruct o as [|o|]; destruct t as [|t|]; try discriminate;
+  intros Ha Hd. unfold gen_firm_single.
+  destruct f as [|f|[|]]; destruct o as [|o|[|]]; destruct t as [|t|[|]];
   destruct d as [|d|[|]]; try contradiction; simpl in Hd;
-  destruct (String.eqb s "lower"); xunf; cbn -[Qle_bool Qeq_bool Qcompare Qmult Qplus Qminus Qopp Qdiv Qinv]; qsplit;
-  cbn -[Qmult Qplus Qminus Qopp Qdiv Qinv];
+  destruct (String.eqb s "lower"); xunf; cbn -[Qle_bool Qeq_bool Qcompare Qmult Qplus Qminus Qopp Qdiv Qinv]; qcmpx;
+  cbn -[Qmult Qplus Qminus Qopp Qdiv Qinv]; qcmpx; cbn -[Qmult Qplus Qminus Qopp Qdiv Qinv];
   repeat split; intros; try discriminate; auto;
   match goal with H : _ \/ _ |- _ => destruct H as [H|[H|H]]; discriminate end.
 Qed.
 
-
+(* the "if" direction needs no hypothesis at all: a NaN forecast, observation or threshold makes all three outputs NaN for
+   every risk parameter and discount distance (finite, infinite or NaN) *)
+Lemma xmul_nan_r a : xmul a XNaN = XNaN.
+Proof. destruct a as [| |[|]]; reflexivity. Qed.
+Lemma firm_nan_in (s : string) (a f o t d : xv) :
+  f = XNaN \/ o = XNaN \/ t = XNaN -> gen_firm_single f o a t d s = (XNaN, XNaN, XNaN).
+Proof.
+  intro H. unfold gen_firm_single. destruct (String.eqb s "lower"); destruct (xnev d (XFin (0 # 1)));
+  destruct H as [H | [H | H]]; subst; unfold xwhere, xisnan, negb;
+  repeat match goal with |- context [match ?x with XNaN => _ | _ => _ end] => destruct x end;
+  rewrite ?xmul_nan_r; reflexivity.
+Qed.
